@@ -291,6 +291,29 @@ class CFG:
                     stack.append(m)
         return (fwd & back) - {a, b}
 
+    def conditions(self, nid):
+        """Branch outcomes that hold on EVERY path from the entry to node
+        `nid`: [(test expr, bool)].  Covers nesting and early exits alike
+        (`if not x: return` makes `x` hold afterwards)."""
+        out = []
+        dom = self.dominators().get(nid, set())
+        for t in sorted(dom):
+            n = self.nodes[t]
+            if n.kind != "test" or t == nid:
+                continue
+            tr = [m for m, l in self.succ[t] if l == "true"]
+            fa = [m for m, l in self.succ[t] if l == "false"]
+            rt, rf = set(), set()
+            for m in tr:
+                rt |= self.reachable(m, avoid={t}, include_start=True)
+            for m in fa:
+                rf |= self.reachable(m, avoid={t}, include_start=True)
+            if nid in rt and nid not in rf:
+                out.append((n.stmt.test, True))
+            elif nid in rf and nid not in rt:
+                out.append((n.stmt.test, False))
+        return out
+
     def control_conditions(self, nid):
         """Branch decisions (test node id, label) that node `nid` is control
         dependent on, following the chain to the entry: computed structurally
